@@ -523,6 +523,37 @@ def impl_session(case):
                 pass
 
     scope = {"type": "websocket", "path": "/", "headers": [], "query_string": b"", "subprotocols": []}
+    if (len(script) + len(calls)) % 2:
+        # the scope mapping is the server's: one that has carried another connection before (a server or a fixture that
+        # reuses the dict) is as good as a new one; a new WebSocket over it starts its handshake from the beginning
+        earlier = [{"type": "websocket.connect"}, {"type": "websocket.receive", "text": "x"},
+                   {"type": "websocket.disconnect", "code": 1001}]
+        kind = len(calls) % 3
+
+        async def prev_receive():
+            if not earlier:
+                raise Blocked()
+            return earlier.pop(0)
+
+        async def prev_send(m):
+            pass
+
+        async def prev_view(ws):
+            if kind == 0:
+                await ws.accept()
+                await ws.receive_text()
+                await ws.send_text("y")
+                await ws.close()
+            elif kind == 1:
+                await ws.receive()
+                await ws.close(1008)
+            else:
+                await ws.accept()
+
+        try:
+            drive(websocket_session(prev_view)(scope, prev_receive, prev_send))
+        except Exception:
+            pass
     drive(websocket_session(view)(scope, receive, send))
     return out
 
